@@ -101,6 +101,7 @@ def run(ctx, report: Report) -> None:
         return out
 
     def check_nodes(mn, mod, nodes, owner):
+        nonlocal r1
         aliases = bs4_aliases(mod)
         n_sites = 0
         for root in nodes:
@@ -152,10 +153,29 @@ def run(ctx, report: Report) -> None:
                                          f'{name} yet: `import bs4` fails with AttributeError')
         return n_sites
 
+    # positive control: the rule must fire on a tiny module that does what the property forbids
+    import os
+    import tempfile
+    from ..core import Rule
+    from ..srcmodel import Module
+    with tempfile.TemporaryDirectory() as td:
+        pth = os.path.join(td, 'ctl.py')
+        with open(pth, 'w') as fh:
+            fh.write('import bs4\nfrom bs4.element import NavigableString\nclass P(bs4.Tag):\n    pass\n'
+                     'X = (bs4.Comment, bs4.element.Tag)\ndef f(a: bs4.Tag = bs4.Doctype): return bs4.CData\n')
+        ctl = Module('ctl', pth)
+    saved, r1_real = r1, r1
+    probe = Rule('control', 'positive control')
+    r1 = probe
+    check_nodes('ctl', ctl, import_time_nodes(ctl, True), 'ctl.<module>')
+    r1 = r1_real
+    keys = sorted(f.key for f in probe.findings)
+    if len(keys) != 5:
+        raise AnalysisError(f'C16-R1 positive control: expected 5 findings on the control module, got {keys}')
+    r1.instance({'positive_control': 'module with 5 forbidden import-time dereferences', 'reported': keys}, key='control')
+
     total_nodes = 0
     for mn, mod in src.mods.items():
-        if mn == '__meta__':
-            pass
         nodes = import_time_nodes(mod, mod.future_annotations)
         total_nodes += len(nodes)
         check_nodes(mn, mod, nodes, f'{mn}.<module>')
